@@ -237,3 +237,88 @@ func c20Recheck(c *Ctx) {
 	c.R.Checkf(rule, "busy-report-rechecked-against-the-flag@tryQueueReloadRequest", pos, okRecheck && okErase,
 		"after the refused request wrote its busy report every path loads the admission flag again and erases the report when the flag is clear (re-check present: %v, erase on the clear edge: %v) — otherwise a reload that finishes between the failed CAS and the report leaves 'busy' in the progress file for ever and `dae reload` refuses to signal", okRecheck, okErase)
 }
+
+// c20AdmissionAffecting: the functions of package cmd that can (directly or through
+// static calls inside the package) change the admission state of a reload:
+// write one of the admission flags (or an *atomic.Bool handed in as a
+// parameter), send on a channel, or begin/end the failure suppression.
+// Everything else (logging, counters, formatting, the progress file) leaves
+// the admission state alone.
+func c20AdmissionAffecting(c *Ctx) map[types.Object]bool {
+	direct := map[types.Object]bool{}
+	calls := map[types.Object][]types.Object{}
+	for _, f := range c.P.FuncsIn("cmd") {
+		if f.Decl == nil {
+			continue
+		}
+		info := f.Info()
+		self := info.ObjectOf(f.Decl.Name)
+		ast.Inspect(f.Body, func(m ast.Node) bool {
+			switch x := m.(type) {
+			case *ast.SendStmt:
+				direct[self] = true
+			case *ast.UnaryExpr:
+				if x.Op == token.AND && strings.HasPrefix(core.FieldOf(info, x.X), "reloadManager.reload") {
+					direct[self] = true
+				}
+			case *ast.CallExpr:
+				if recv, name, ok := methodCall(x); ok && (name == "Store" || name == "CompareAndSwap" || name == "Swap") {
+					if t := info.TypeOf(recv); t != nil && strings.Contains(t.String(), "atomic.Bool") {
+						direct[self] = true
+					}
+				}
+				if cal := core.CalleeObj(info, x); cal != nil {
+					if nm := cal.Name(); nm == "BeginReloadProxyFailureSuppression" || nm == "EndReloadProxyFailureSuppression" {
+						direct[self] = true
+					}
+					calls[self] = append(calls[self], cal)
+				}
+			}
+			return true
+		})
+	}
+	for changed := true; changed; {
+		changed = false
+		for fn, cs := range calls {
+			if direct[fn] {
+				continue
+			}
+			for _, cal := range cs {
+				if direct[cal] {
+					direct[fn] = true
+					changed = true
+					break
+				}
+			}
+		}
+	}
+	return direct
+}
+
+// c20HarmlessCall: a call that cannot change the admission state.
+func c20HarmlessCall(c *Ctx, info *types.Info, call *ast.CallExpr, affecting map[types.Object]bool) bool {
+	cal := core.CalleeObj(info, call)
+	if cal == nil {
+		if id, ok := call.Fun.(*ast.Ident); ok {
+			if _, isB := info.Uses[id].(*types.Builtin); isB {
+				return true
+			}
+			if tv, ok := info.Types[call.Fun]; ok && tv.IsType() {
+				return true
+			}
+		}
+		if tv, ok := info.Types[call.Fun]; ok && tv.IsType() {
+			return true
+		}
+		return false // a function value: unknown effect
+	}
+	if affecting[cal] {
+		return false
+	}
+	if recv, name, ok := methodCall(call); ok && (name == "Store" || name == "CompareAndSwap" || name == "Swap") {
+		if t := info.TypeOf(recv); t != nil && strings.Contains(t.String(), "atomic.Bool") {
+			return false
+		}
+	}
+	return true
+}
